@@ -23,10 +23,15 @@ var quickSpecs = []spec{
 	{512, 2, "65537", false}, {512, 2, "3", false}, {512, 2, "large", true}, {768, 2, "65537", true}, {768, 3, "3", false},
 	{1024, 2, "65537", false}, {1024, 2, "large", false}, {1024, 3, "65537", false}, {1024, 4, "large", true},
 	{1280, 5, "65537", false}, {1536, 2, "3", false}, {2048, 2, "65537", false}, {2048, 3, "large", false}, {640, 2, "large", false},
+	// modulus bit lengths that are not a multiple of 8. bits = 1 mod 8 is the case emLen = k-1 of RSASSA-PSS (the
+	// representative has a whole leading octet that must be zero); the others have 8*emLen-emBits = 1..7 masked top bits.
+	{1025, 2, "65537", false}, {513, 2, "3", false}, {2049, 2, "65537", false}, {1031, 3, "65537", true}, {1028, 2, "large", false}, {777, 2, "large", false},
 }
 var thoroughSpecs = []spec{
 	{3072, 2, "65537", false}, {4096, 2, "65537", false}, {4096, 2, "large", false}, {3072, 4, "3", false}, {2048, 5, "65537", false},
 	{2048, 2, "3", true}, {1024, 5, "large", false}, {896, 2, "65537", false}, {1152, 3, "large", true},
+	{3073, 2, "65537", false}, {4097, 2, "3", false}, {1026, 2, "65537", false}, {1027, 2, "3", false}, {1029, 4, "65537", false}, {1030, 2, "large", true},
+	{1537, 3, "large", false}, {2055, 2, "65537", false}, {521, 2, "65537", false},
 }
 
 var (
@@ -58,10 +63,10 @@ func Pool(g *zv.Gen) []*Key {
 	}
 	wg.Wait()
 	// two keys from zcrypto's own generator (exercises GenerateMultiPrimeKey + Precompute)
-	for _, np := range []int{2, 3} {
-		zk, err := zrsa.GenerateMultiPrimeKey(r.Fork(), np, 1024)
+	for _, gs := range [][2]int{{2, 1024}, {3, 1024}, {2, 1033}} {
+		zk, err := zrsa.GenerateMultiPrimeKey(r.Fork(), gs[0], gs[1])
 		if err == nil {
-			keys = append(keys, &Key{N: zk.N, E: zk.E, D: zk.D, Primes: zk.Primes, Bits: 1024, EKind: "65537"})
+			keys = append(keys, &Key{N: zk.N, E: zk.E, D: zk.D, Primes: zk.Primes, Bits: gs[1], EKind: "65537"})
 		}
 	}
 	pools[id] = keys
@@ -317,6 +322,10 @@ func gen(g *zv.Gen) {
 				}
 				e2 := new(big.Int).Add(k.E, big.NewInt(2))
 				g.Emitf("c23 verv15 %s %s %d %s %s", Hx(k.N), Hx(e2), hid, zv.Hex(digest), zv.Hex(sig))
+				// forgeries that need the private key: roots of crafted representatives, unreduced / negated values
+				for _, fg := range Forgeries(r, k, sig, false) {
+					g.Emitf("c23 verv15 %s %d %s %s", k.PubArgs(), hid, zv.Hex(digest), zv.Hex(fg.Sig))
+				}
 			}
 
 			// PSS
@@ -341,6 +350,22 @@ func gen(g *zv.Gen) {
 				g.Emitf("c23 verpss %s %d %s %s %d", k.PubArgs(), int(h), zv.Hex(flip(r, dg)), zv.Hex(sig), vm[r.Intn(2)])
 				h2 := modelHashes[r.Intn(len(modelHashes))]
 				g.Emitf("c23 verpss %s %d %s %s %d", k.PubArgs(), int(h2), zv.Hex(r.Bytes(h2.Size())), zv.Hex(sig), 0)
+				// forgeries that need the private key, verified under the salt modes that accept the genuine signature.
+				// Whether EM + 2^(bits-1) stays below n depends on the salt: redraw it a few times so that the
+				// must-be-zero top bit / leading octet (emLen = k-1 when bits = 1 mod 8) is set for (nearly) every key.
+				fgs := Forgeries(r, k, sig, true)
+				for try := 0; try < 6 && (len(fgs) == 0 || fgs[0].Kind != "rep+2^(bits-1)"); try++ {
+					s2, err := zrsa.SignPSS(r.Fork(), ParsePriv(strings.Fields(k.PrivArgs("-"))), h, dg, pssOpts(sl, h))
+					if err != nil {
+						break
+					}
+					if f2 := Forgeries(r, k, s2, true); len(f2) > 0 && f2[0].Kind == "rep+2^(bits-1)" {
+						fgs = append(f2[:1], fgs...)
+					}
+				}
+				for _, fg := range fgs {
+					g.Emitf("c23 verpss %s %d %s %s %d", k.PubArgs(), int(h), zv.Hex(dg), zv.Hex(fg.Sig), []int{sl, 0}[r.Intn(2)])
+				}
 			}
 
 			// PKCS#1 v1.5 encryption
